@@ -9,5 +9,6 @@ import (
 
 func htmlEntityDecode(data string) (string, bool, error) {
 	transformedData := html.UnescapeString(data)
-	return transformedData, len(data) != len(transformedData), nil
+	// An entity can decode to a sequence of the same byte length, so compare the content, not the length.
+	return transformedData, data != transformedData, nil
 }
